@@ -108,8 +108,8 @@ Definition k_limit_node : rawnode :=
    Schedule: a heartbeat response from 2 (matched < last_index) makes the leader queue
    an EMPTY MsgAppend(index 3); before the next Ready a rejection of the in-flight
    append at index 2 arrives (messages reordered), next falls back to 2 and the
-   re-sent entries [2; 3] are MERGED into the queued empty message, because
-   is_continuous_ents answers true for a message without entries. *)
+   re-sent entries [2; 3] WERE merged into the queued empty message, because
+   is_continuous_ents answered true for a message without entries (fixed, cc6f146). *)
 Definition k_batch_leader : raft :=
   mkRaft 2 1 1 [] (mkLog k_store3 (u_new 4) 1 3 1 0) 4 u64_max 0 Leader true 1 None 0 (ro_new 0)
          0 0 false false false true false 1 10 15 10 20 0%Z u64_max 0 2 u64_max
@@ -127,9 +127,6 @@ Definition k_after_hb : raft :=
   match step k_batch_leader k_hb_resp with Ok (r, _) => r | Panic _ => k_batch_leader end.
 Definition k_after_reject : raft :=
   match step k_after_hb k_reject2 with Ok (r, _) => r | Panic _ => k_after_hb end.
-(* the non-contiguous message *)
-Definition k_bad_append : msg :=
-  match r_msgs k_after_reject with m :: _ => m | [] => msg_default end.
 (* the progress of 2 just before the re-send: Probe, next = 2 *)
 Definition k_pr2_probe : progress :=
   mkPr 1 2 Probe false 0 0 true (Inflights.reset (k_infl [2; 3])) 0 1.
@@ -166,28 +163,36 @@ Proof.
 Qed.
 
 (* ================================================================== *)
-(* (ii) *)
-Theorem known_self_removed_leader_commit_witness :
-  exists r cc r1 cs m,
+(* (ii) FIXED in /repo e9967b2 (maybe_commit / on_persist_entries no longer unwrap the
+   leader's own Progress).  REGRESSION GUARDS: in exactly the former witness states the
+   calls now return Ok.  Before the fix both returned [Panic site_self_progress]. *)
+Theorem fixed_self_removed_leader_commit_guard :
+  exists r cc r1 cs m r2,
     r_state r = Leader /\ (exists p, get_pr r (r_id r) = Some p) /\
     raft_apply_conf_change r cc = Ok (r1, Some cs) /\    (* the leader applies its own removal *)
     r_state r1 = Leader /\ get_pr r1 (r_id r1) = None /\
     m_type m = MsgAppendResponse /\ m_reject m = false /\ m_term m = r_term r1 /\
     (exists p, get_pr r1 (m_from m) = Some p) /\         (* from a remaining member *)
     m_index m <= last_index (r_log r1) /\                (* acknowledging an existing entry *)
-    step r1 m = Panic site_self_progress /\
-    forall n, rn_raft n = r1 -> rn_step n m = Panic site_self_progress.
+    committed (r_log r1) = 3 /\
+    step r1 m = Ok (r2, E_OK) /\
+    committed (r_log r2) = 4 /\ r_state r2 = Leader /\ get_pr r2 (r_id r2) = None /\
+    map (fun x => (m_type x, m_to x, m_commit x)) (r_msgs r2) = [(MsgAppend, 2, 4); (MsgAppend, 3, 4)] /\
+    forall n, rn_raft n = r1 -> rn_step n m = Ok (n <| rn_raft := r2 |>, E_OK).
 Proof.
   exists k_leader, k_remove_self, k_self_removed.
-  eexists. exists k_ack4.
+  eexists. exists k_ack4. eexists.
   split; [reflexivity|]. split; [eexists; vm_compute; reflexivity|].
   split; [vm_compute; reflexivity|].
   split; [vm_compute; reflexivity|]. split; [vm_compute; reflexivity|].
   split; [reflexivity|]. split; [reflexivity|]. split; [vm_compute; reflexivity|].
   split; [eexists; vm_compute; reflexivity|].
   split; [vm_compute; discriminate|].
-  assert (E : step k_self_removed k_ack4 = Panic site_self_progress) by (vm_compute; reflexivity).
+  split; [vm_compute; reflexivity|].
+  match goal with |- ?A /\ _ => assert (E : A) by (vm_compute; reflexivity) end.
   split; [exact E|].
+  split; [reflexivity|]. split; [reflexivity|]. split; [vm_compute; reflexivity|].
+  split; [reflexivity|].
   intros n Hn. unfold rn_step. rewrite Hn.
   change (is_local_msg (m_type k_ack4)) with false. cbv iota.
   assert (G : exists p, get_pr k_self_removed (m_from k_ack4) = Some p)
@@ -195,22 +200,48 @@ Proof.
   destruct G as [p G]. rewrite G. cbn [orb]. rewrite E. reflexivity.
 Qed.
 
-Theorem known_self_removed_leader_persist_witness :
-  exists r cc r1 cs i t,
+Theorem fixed_self_removed_leader_persist_guard :
+  exists r cc r1 cs i t r2,
     r_state r = Leader /\ (exists p, get_pr r (r_id r) = Some p) /\
     raft_apply_conf_change r cc = Ok (r1, Some cs) /\
     r_state r1 = Leader /\ get_pr r1 (r_id r1) = None /\
     persisted (r_log r1) < i /\ i <= last_index (r_log r1) /\   (* a written, not yet reported entry *)
     RaftLog.term (r_log r1) i = Ok (SOk t) /\
-    on_persist_entries r1 i t = Panic site_self_progress.
+    on_persist_entries r1 i t = Ok r2 /\
+    persisted (r_log r2) = i /\ r2 = r1 <| r_log := set_persisted (r_log r1) i |>.
 Proof.
   exists k_leader, k_remove_self, k_self_removed.
-  eexists. exists 4, 2.
+  eexists. exists 4, 2. eexists.
   split; [reflexivity|]. split; [eexists; vm_compute; reflexivity|].
   split; [vm_compute; reflexivity|].
   split; [vm_compute; reflexivity|]. split; [vm_compute; reflexivity|].
   split; [vm_compute; reflexivity|]. split; [vm_compute; discriminate|].
+  split; [vm_compute; reflexivity|].
+  split; [vm_compute; reflexivity|].
   split; vm_compute; reflexivity.
+Qed.
+
+(* the general statements behind the guards *)
+Theorem maybe_commit_self_removed r :
+  get_pr r (r_id r) = None ->
+  maybe_commit r =
+    (x <- RaftLog.maybe_commit (r_log r) (fst (prs_maximal_committed_index (r_prs r))) (r_term r) ;;
+     Ok (r <| r_log := fst x |>, snd x)).
+Proof.
+  intros G. unfold maybe_commit.
+  destruct (RaftLog.maybe_commit _ _ _) as [[l' b]|s]; cbn [bind]; [|reflexivity].
+  destruct b; [rewrite G|]; reflexivity.
+Qed.
+
+Theorem on_persist_entries_self_removed r i t :
+  get_pr r (r_id r) = None ->
+  on_persist_entries r i t = (x <- maybe_persist (r_log r) i t ;; Ok (r <| r_log := fst x |>)).
+Proof.
+  intros G. unfold on_persist_entries.
+  destruct (maybe_persist _ _ _) as [[l' b]|s]; cbn [bind]; [|reflexivity].
+  destruct (b && is_leader _); [|reflexivity].
+  change (get_pr (r <| r_log := l' |>) (r_id (r <| r_log := l' |>))) with (get_pr r (r_id r)).
+  rewrite G. reflexivity.
 Qed.
 
 (* ================================================================== *)
@@ -239,83 +270,134 @@ Proof.
 Qed.
 
 (* ================================================================== *)
-(* (iv) *)
-Theorem known_apply_limit_overflow_witness :
+(* (iv) FIXED in /repo 63caa76 (applied_index_upper_bound saturates).  REGRESSION GUARD:
+   in the former witness state has_ready / ready now answer.  Before the fix both
+   returned [Panic site_l_overflow]. *)
+Theorem fixed_apply_limit_overflow_guard :
   exists n n1,
     r_state (rn_raft n) = Leader /\ rn_has_ready n = Ok false /\
     1 <= persisted (r_log (rn_raft n)) /\
     n1 = n <| rn_raft := set_max_apply_unpersisted_log_limit (rn_raft n) u64_max |> /\
-    rn_has_ready n1 = Panic site_l_overflow /\
-    (exists l, rn_ready n1 = Panic site_l_overflow /\ l = r_log (rn_raft n1) /\
-       next_entries_since l (rn_commit_since_index n1) None = Panic site_l_overflow /\
-       has_next_entries_since l (rn_commit_since_index n1) = Panic site_l_overflow).
+    rn_has_ready n1 = Ok false /\
+    (exists n2 rd, rn_ready n1 = Ok (n2, rd) /\ lr_committed_entries (rd_light rd) = [] /\
+       rd_entries rd = [] /\ rd_hs rd = None) /\
+    next_entries_since (r_log (rn_raft n1)) (rn_commit_since_index n1) None = Ok None /\
+    has_next_entries_since (r_log (rn_raft n1)) (rn_commit_since_index n1) = Ok false.
 Proof.
   exists k_quiet_node, k_limit_node.
   split; [reflexivity|]. split; [vm_compute; reflexivity|].
   split; [vm_compute; discriminate|]. split; [reflexivity|].
   split; [vm_compute; reflexivity|].
-  eexists. split; [vm_compute; reflexivity|]. split; [reflexivity|].
+  split. { eexists. eexists. split; [vm_compute; reflexivity|]. repeat split. }
   split; vm_compute; reflexivity.
 Qed.
 
+Theorem applied_index_upper_bound_total l :
+  applied_index_upper_bound l
+  = Ok (N.min (committed l) (N.min u64_max (persisted l + max_apply_unpersisted_log_limit l))).
+Proof. reflexivity. Qed.
+
 (* ================================================================== *)
-(* (v) *)
+(* (v) FIXED in /repo cc6f146 (is_continuous_ents anchors an empty message at its index). *)
 Definition first_entry_index (m : msg) : N :=
   match m_entries m with e :: _ => e_index e | [] => 0 end.
 
-(* the function-level statement: maybe_send_append yields a non-contiguous MsgAppend *)
-Theorem known_batch_noncontiguous_witness :
-  exists r to pr r' pr' m,
-    r_state r = Leader /\ r_batch_append r = true /\
-    pr_state pr = Probe /\ next_idx pr = matched pr + 1 /\ is_paused pr = false /\
-    (* the only queued message is an EMPTY MsgAppend to the same peer *)
-    (exists q, r_msgs r = [q] /\ m_type q = MsgAppend /\ m_to q = to /\ m_entries q = []) /\
-    maybe_send_append r to pr true = Ok (r', pr', true) /\
-    r_msgs r' = [m] /\ m_type m = MsgAppend /\ m_to m = to /\ m_entries m <> [] /\
-    m_index m + 1 <> first_entry_index m.
+(* the index after which entries merged into [m] must start *)
+Definition batch_anchor (m : msg) : N :=
+  match m_entries m with
+  | [] => m_index m
+  | _ => e_index (List.last (m_entries m) entry_default)
+  end.
+
+(* GENERAL THEOREM: whenever try_batching merges a non-empty [ents] into a queued message
+   [m] (the first queued MsgAppend to [to]), the entries start right after [m]'s anchor;
+   nothing else in the queue changes. *)
+Theorem try_batching_contiguous r to msgs : forall pr ents msgs' pr',
+  ents <> [] ->
+  try_batching r to msgs pr ents = Ok (msgs', pr', true) ->
+  exists pre m post,
+    msgs = pre ++ m :: post /\
+    msgs' = pre ++ (m <| m_entries := m_entries m ++ ents |> <| m_commit := committed (r_log r) |>)
+                   :: post /\
+    m_type m = MsgAppend /\ m_to m = to /\
+    (forall q, In q pre -> (m_type q =? MsgAppend) && (m_to q =? to) = false) /\
+    e_index (hd entry_default ents) = batch_anchor m + 1.
 Proof.
-  exists (put_pr k_after_hb 2 k_pr2_probe), 2, k_pr2_probe.
-  eexists. eexists. eexists.
-  split; [vm_compute; reflexivity|]. split; [vm_compute; reflexivity|].
-  split; [reflexivity|]. split; [vm_compute; reflexivity|]. split; [reflexivity|].
-  split. { eexists. split; [vm_compute; reflexivity|]. repeat split. }
-  split; [vm_compute; reflexivity|].
-  split; [reflexivity|]. split; [reflexivity|]. split; [reflexivity|].
-  split; vm_compute; discriminate.
+  induction msgs as [|m rest IH]; intros pr ents msgs' pr' Hne H; cbn [try_batching] in H.
+  - discriminate.
+  - destruct ((m_type m =? MsgAppend) && (m_to m =? to)) eqn:Hm.
+    + destruct ents as [|e0 et]; [congruence|].
+      destruct (negb (is_continuous_ents m (e0 :: et))) eqn:Hc; [discriminate|].
+      destruct (update_state pr _) as [pr1|s]; cbn [bind] in H; [|discriminate].
+      injection H as <- <-.
+      exists [], m, rest. apply andb_prop in Hm. destruct Hm as [Ht Hto].
+      apply N.eqb_eq in Ht. apply N.eqb_eq in Hto.
+      split; [reflexivity|]. split; [reflexivity|]. split; [exact Ht|]. split; [exact Hto|].
+      split; [intros q []|].
+      apply negb_false_iff in Hc. unfold is_continuous_ents in Hc. apply N.eqb_eq in Hc.
+      unfold batch_anchor. cbn [hd]. symmetry. exact Hc.
+    + destruct (try_batching r to rest pr ents) as [[[rest' pr1] b]|s] eqn:E; cbn [bind] in H;
+        [|discriminate].
+      injection H as <- <- ->.
+      destruct (IH _ _ _ _ Hne E) as (pre & m0 & post & E1 & E2 & Ht & Hto & Hpre & Hc).
+      exists (m :: pre), m0, post. subst rest rest'.
+      split; [reflexivity|]. split; [reflexivity|]. split; [exact Ht|]. split; [exact Hto|].
+      split; [|exact Hc].
+      intros q [<-|Hq]; [exact Hm|apply Hpre; exact Hq].
 Qed.
 
-(* the same as a schedule of two [step] calls on an ordinary leader, and its effect on a
-   follower that holds exactly the leader's log: the follower ACCEPTS the message and
-   acknowledges index m_index + |entries| = 5, beyond its (and the leader's) last
-   index 3; the leader then records matched = 5 for it. *)
-Theorem known_batch_noncontiguous_schedule_witness :
-  exists r hb rj r1 r2 m f f' ack r3,
+(* REGRESSION GUARD, function level: in the former witness state (queue = one EMPTY
+   MsgAppend(index 3) to peer 2, progress of 2 = Probe with next = 2) the entries [2; 3]
+   are no longer merged: a second, contiguous MsgAppend(index 1) is queued.  Before the
+   fix the result was the single message MsgAppend(index 3, entries [2; 3]). *)
+Theorem fixed_batch_noncontiguous_guard :
+  exists r to pr r' pr' q m,
+    r_state r = Leader /\ r_batch_append r = true /\
+    pr_state pr = Probe /\ next_idx pr = matched pr + 1 /\ is_paused pr = false /\
+    r_msgs r = [q] /\ m_type q = MsgAppend /\ m_to q = to /\ m_entries q = [] /\ m_index q = 3 /\
+    maybe_send_append r to pr true = Ok (r', pr', true) /\
+    r_msgs r' = [q; m] /\ m_type m = MsgAppend /\ m_to m = to /\
+    map e_index (m_entries m) = [2; 3] /\ m_index m = 1 /\
+    m_index m + 1 = first_entry_index m.
+Proof.
+  exists (put_pr k_after_hb 2 k_pr2_probe), 2, k_pr2_probe.
+  eexists. eexists. eexists. eexists.
+  split; [vm_compute; reflexivity|]. split; [vm_compute; reflexivity|].
+  split; [reflexivity|]. split; [vm_compute; reflexivity|]. split; [reflexivity|].
+  split; [vm_compute; reflexivity|].
+  split; [reflexivity|]. split; [reflexivity|]. split; [reflexivity|]. split; [reflexivity|].
+  split; [vm_compute; reflexivity|].
+  split; [reflexivity|]. split; [reflexivity|]. split; [reflexivity|].
+  split; [reflexivity|]. split; reflexivity.
+Qed.
+
+(* REGRESSION GUARD, schedule level: heartbeat response, then the reordered rejection.
+   The leader now holds two well-formed messages; a follower holding exactly the
+   leader's entries 1..3 acknowledges index 3 (= 1 + 2), not 5. *)
+Theorem fixed_batch_noncontiguous_schedule_guard :
+  exists r hb rj r1 r2 q m f f' ack,
     r_state r = Leader /\ r_batch_append r = true /\ r_msgs r = [] /\
     m_type hb = MsgHeartbeatResponse /\ m_type rj = MsgAppendResponse /\ m_reject rj = true /\
     step r hb = Ok (r1, E_OK) /\ step r1 rj = Ok (r2, E_OK) /\
-    r_msgs r2 = [m] /\ m_type m = MsgAppend /\ m_index m = 3 /\
-    map e_index (m_entries m) = [2; 3] /\
+    r_msgs r2 = [q; m] /\
+    m_type q = MsgAppend /\ m_index q = 3 /\ m_entries q = [] /\
+    m_type m = MsgAppend /\ m_index m = 1 /\ map e_index (m_entries m) = [2; 3] /\
     (* follower side *)
     r_state f = Follower /\ r_log f = r_log r /\ last_index (r_log f) = 3 /\
     step f m = Ok (f', E_OK) /\ r_msgs f' = [ack] /\
-    m_type ack = MsgAppendResponse /\ m_reject ack = false /\ m_index ack = 5 /\
-    last_index (r_log f') = 3 /\
-    (* leader side *)
-    step r2 (ack <| m_from := 2 |>) = Ok (r3, E_OK) /\
-    option_map matched (get_pr r3 2) = Some 5 /\ last_index (r_log r3) = 3.
+    m_type ack = MsgAppendResponse /\ m_reject ack = false /\ m_index ack = 3 /\
+    last_index (r_log f') = 3.
 Proof.
-  exists k_batch_leader, k_hb_resp, k_reject2, k_after_hb, k_after_reject, k_bad_append,
-         k_follower2.
-  eexists. eexists. eexists.
+  exists k_batch_leader, k_hb_resp, k_reject2, k_after_hb, k_after_reject.
+  eexists. eexists. exists k_follower2. eexists. eexists.
   split; [reflexivity|]. split; [reflexivity|]. split; [reflexivity|].
   split; [reflexivity|]. split; [reflexivity|]. split; [reflexivity|].
   split; [vm_compute; reflexivity|]. split; [vm_compute; reflexivity|].
-  split; [vm_compute; reflexivity|]. split; [vm_compute; reflexivity|].
-  split; [vm_compute; reflexivity|]. split; [vm_compute; reflexivity|].
+  split; [vm_compute; reflexivity|].
+  split; [reflexivity|]. split; [reflexivity|]. split; [reflexivity|].
+  split; [reflexivity|]. split; [reflexivity|]. split; [reflexivity|].
   split; [reflexivity|]. split; [reflexivity|]. split; [vm_compute; reflexivity|].
   split; [vm_compute; reflexivity|]. split; [reflexivity|].
   split; [reflexivity|]. split; [reflexivity|]. split; [reflexivity|].
-  split; [vm_compute; reflexivity|].
-  split; [vm_compute; reflexivity|].
-  split; vm_compute; reflexivity.
+  vm_compute; reflexivity.
 Qed.
